@@ -195,6 +195,29 @@ class Inst:
         raise NotImplementedError('cannot instantiate %s' % type(e).__name__)
 
 
+def numeval(v, pt, dps=120):
+    """value of the sympy scalar `v` at the rational point `pt` ({symbol: Rational}) with mpmath at
+    `dps` digits.  (`sympy.N(v.subs(pt), n)` is NOT used: on large quotients of sums it returns
+    different — wrong — numbers for different `n`; observed on the Czarny mapping.)"""
+    import mpmath
+    syms = list(pt.keys())
+    v = sympy.sympify(v)
+    extra = [s for s in v.free_symbols if s not in pt]
+    if extra:
+        raise TypeError('free symbols %s' % extra)
+    f = sympy.lambdify(syms, v, 'mpmath')
+    with mpmath.workdps(dps):
+        r = f(*[mpmath.mpf(int(pt[s].p)) / int(pt[s].q) for s in syms])
+        r = mpmath.mpmathify(r)
+        if isinstance(r, mpmath.mpc):
+            if abs(r.imag) > mpmath.mpf(10) ** (-dps // 2) * (abs(r.real) + 1):
+                raise TypeError('complex value')
+            r = r.real
+        if not mpmath.isfinite(r):
+            raise ZeroDivisionError('not finite')
+        return r
+
+
 def is_zero_value(v, coords, rng, numeric=False):
     """decide v == 0 for a scalar or matrix value: exact expansion for rational functions,
     50-digit evaluation at random rational points otherwise"""
@@ -217,13 +240,11 @@ def is_zero_value(v, coords, rng, numeric=False):
     for _ in range(12):
         pt = {x: Rational(rng.randint(1, 40), rng.randint(7, 13)) for x in coords}
         try:
-            val = sympy.N(v.subs(pt), 50)
-            if not val.is_number or val.is_finite is not True:
-                continue
-            if abs(val) > sympy.Float('1e-30'):
+            val = numeval(v, pt)
+            if abs(val) > 1e-30:
                 return False
             good += 1
-        except (TypeError, ValueError, ZeroDivisionError):
+        except (TypeError, ValueError, ZeroDivisionError, OverflowError, NameError, AttributeError):
             continue
         if good >= 3:
             return True
@@ -255,15 +276,13 @@ def same_value(a, b, coords, rng, numeric=False):
     for _ in range(15):
         pt = {x: Rational(rng.randint(2, 30), rng.randint(17, 23)) for x in coords}
         try:
-            va = sympy.N(a.subs(pt), 60)
-            vb = sympy.N(b.subs(pt), 60)
-            if not (va.is_number and vb.is_number) or va.is_finite is not True or vb.is_finite is not True:
-                continue
+            va = numeval(a, pt)
+            vb = numeval(b, pt)
             scale = abs(va) + abs(vb) + 1
-            if abs(va - vb) > sympy.Float('1e-35') * scale:
+            if abs(va - vb) > 1e-35 * scale:
                 return False
             good += 1
-        except (TypeError, ValueError, ZeroDivisionError):
+        except (TypeError, ValueError, ZeroDivisionError, OverflowError, NameError, AttributeError):
             continue
         if good >= 3:
             return True
